@@ -506,8 +506,8 @@ func c17Plan(tier string) []PlanItem {
 
 func init() {
 	props["C17"] = &propDef{
-		Level: "exploration",
-		Rule: "(i) CalculateBackoff over the product of a backoff-config lattice x attempts {0..70, 1000, 2^31, MaxInt} x owned random values {0,.25,.5,.75,1-2^-53} against interval arithmetic; (ii) RetryWithBackoff in a virtual-time bubble for every outcome sequence over {ok,transient,permanent} of length <=5 x MaxAttempts 0..4 x breaker {none,1,2} x cancellation before the first call and in the middle of every wait, against a reference timeline (exact call instants, result class); (iii) CircuitBreaker for every length-6 sequence of (outcome, gap in {0, cooldown-1ns, cooldown+1ns}) x threshold 1..3 against a reference FSM; (iv) every acquisition round in every explored execution (<= D deviations, incl. all jitter/backoff draws from the menu) of the listed election scenarios: first Create exactly 10ms + r*90ms after the round's trigger, <=4 attempts, gaps equal to the backoff for the drawn value. evaluations/distinct_nontrivial count the executions of (iv); the direct enumerations are reported under direct_*",
+		Level:  "exploration",
+		Rule:   "(i) CalculateBackoff over the product of a backoff-config lattice x attempts {0..70, 1000, 2^31, MaxInt} x owned random values {0,.25,.5,.75,1-2^-53} against interval arithmetic; (ii) RetryWithBackoff in a virtual-time bubble for every outcome sequence over {ok,transient,permanent} of length <=5 x MaxAttempts 0..4 x breaker {none,1,2} x cancellation before the first call and in the middle of every wait, against a reference timeline (exact call instants, result class); (iii) CircuitBreaker for every length-6 sequence of (outcome, gap in {0, cooldown-1ns, cooldown+1ns}) x threshold 1..3 against a reference FSM; (iv) every acquisition round in every explored execution (<= D deviations, incl. all jitter/backoff draws from the menu) of the listed election scenarios: first Create exactly 10ms + r*90ms after the round's trigger, <=4 attempts, gaps equal to the backoff for the drawn value. evaluations/distinct_nontrivial count the executions of (iv); the direct enumerations are reported under direct_*",
 		Assume: []string{"backoff lattice restricted to Jitter in [0,1], Multiplier >= 1, MaxBackoff <= 100 years", "the breaker is exercised at cooldown-1ns and cooldown+1ns, not at exactly the cooldown"},
 		Direct: c17Direct,
 		Plan:   c17Plan,
